@@ -15,6 +15,7 @@ import (
 	"k8s.io/apiserver/pkg/authentication/authenticator"
 	"k8s.io/apiserver/pkg/authentication/user"
 	"k8s.io/apiserver/pkg/authorization/authorizer"
+	apirequest "k8s.io/apiserver/pkg/endpoints/request"
 
 	"verifharness/bed"
 	"verifharness/vkit"
@@ -48,9 +49,15 @@ type target struct {
 	url  string
 	raw  *bed.RawStub
 	h2   *bed.Stub
-	// resets counts EndpointInfo.ResetTransport() calls made on this target's endpoint (only the case that holds the
-	// test bed touches it)
-	resets int
+	// shared: this cluster's only endpoint is the stub of another cluster of the same gateway (different credential)
+	shared bool
+	// history of the cluster object, written by whoever holds the test bed (under testbed.histMu): number of
+	// EndpointInfo.ResetTransport() calls on its endpoint, every credential it was ever configured with (the last one is
+	// current), how often it was deleted and re-created under the same name, and the kind of the latest of these events
+	resets    int
+	creds     []string
+	recreated int
+	last      string
 }
 
 type testbed struct {
@@ -60,6 +67,9 @@ type testbed struct {
 	curMu   sync.Mutex
 	tokens  sync.Map // token -> *user.DefaultInfo
 	authn   sync.Map // request id -> *Identity (what the authenticator returned), absent = not authenticated
+	scripts sync.Map // case namespace (RequestInfo.Namespace of the request) -> *script
+	histMu  sync.RWMutex
+	front   *bed.Front // TLS + HTTP/2 front door of the same handler chain
 }
 
 func toIdentity(u user.Info) *Identity {
@@ -79,6 +89,10 @@ func (tb *testbed) authenticate(req *http.Request) (*authenticator.Response, boo
 			tok = parts[1]
 		}
 	}
+	if strings.HasPrefix(tok, "errtok-") {
+		// the authenticator itself fails (webhook down): not authenticated
+		return nil, false, fmt.Errorf("scripted authenticator error")
+	}
 	if v, ok := tb.tokens.Load(tok); ok && tok != "" {
 		u := v.(*user.DefaultInfo)
 		tb.authn.Store(id, toIdentity(u))
@@ -88,9 +102,18 @@ func (tb *testbed) authenticate(req *http.Request) (*authenticator.Response, boo
 }
 
 func (tb *testbed) authorize(ctx context.Context, a authorizer.Attributes) (authorizer.Decision, string, error) {
-	tb.curMu.Lock()
-	s := tb.cur
-	tb.curMu.Unlock()
+	// the script of a case is found through the namespace in the request's path (cases may be in flight together); cases
+	// on paths without a namespace run one at a time per gateway and use the current script
+	var s *script
+	if ri, ok := apirequest.RequestInfoFrom(ctx); ok && strings.HasPrefix(ri.Namespace, "c02-") {
+		if v, ok := tb.scripts.Load(ri.Namespace); ok {
+			s = v.(*script)
+		}
+	} else {
+		tb.curMu.Lock()
+		s = tb.cur
+		tb.curMu.Unlock()
+	}
 	if s == nil || a.GetVerb() != "impersonate" {
 		return authorizer.DecisionDeny, "no script", nil
 	}
@@ -131,6 +154,9 @@ func newTestbed(idx int, withH2 bool) (*testbed, error) {
 		// an upgrade request is answered 403 so that the gateway relays the answer and closes
 		tb.targets = append(tb.targets, t)
 	}
+	// a third cluster whose only endpoint is the first cluster's stub, with a credential of its own
+	tb.targets = append(tb.targets, &target{host: fmt.Sprintf("c02-%d-c.test", idx), cred: fmt.Sprintf("gwcred-%d-c-55d1", idx), raw: tb.targets[0].raw, shared: true})
+	tb.front = bed.NewH2Front(tb.gw.Handler)
 	if withH2 {
 		t := &target{host: fmt.Sprintf("c02-%d-h2.test", idx), cred: fmt.Sprintf("gwcred-%d-h2-91bc", idx), h2: bed.NewTLSStub(fmt.Sprintf("h2-%d", idx), true)}
 		tb.targets = append(tb.targets, t)
@@ -143,6 +169,7 @@ func newTestbed(idx int, withH2 bool) (*testbed, error) {
 			url = t.h2.URL
 		}
 		t.url = url
+		t.creds = []string{t.cred}
 		obj := bed.BuildCluster(bed.ClusterSpec{Name: t.host, Servers: []string{url}, Token: t.cred})
 		if sr := tb.gw.Apply(obj); sr.Err != nil || sr.Panic != nil || sr.Requeue {
 			return tb, fmt.Errorf("controller did not apply cluster %s: %+v", t.host, sr)
@@ -155,6 +182,7 @@ func newTestbed(idx int, withH2 bool) (*testbed, error) {
 }
 
 func (tb *testbed) close() {
+	tb.front.Close()
 	if tb.gw != nil {
 		tb.gw.Close()
 	}
@@ -183,6 +211,19 @@ var (
 	extraValPool    = []string{"view", "a b", "值", "100%", "edit", "x,y", strings.Repeat("v", 150), ""}
 	// identity strings no HTTP field value can carry (control bytes): a gateway can only refuse to forward these
 	unsendable  = []string{"ctl\x01user", "new\nline", "cr\rx", "nul\x00"}
+	// service-account names at the validation boundaries: namespace = DNS label (<= 63), name = DNS subdomain (<= 253)
+	saBoundary = []string{
+		"system:serviceaccount:" + strings.Repeat("n", 63) + ":" + strings.Repeat("s", 253),
+		"system:serviceaccount:" + strings.Repeat("n", 64) + ":sa",
+		"system:serviceaccount:ns1:" + strings.Repeat("s", 254),
+		"system:serviceaccount:ns1:a.b-c.d",
+		"system:serviceaccount:ns1:-bad",
+		"system:serviceaccount:n.s:sa",
+		"system:serviceaccount:ns1:sa1:more",
+		"system:serviceaccount::sa",
+		"system:serviceaccounts:ns1:sa1",
+		"System:ServiceAccount:ns1:sa1",
+	}
 	otherFamily = []string{"Impersonate-Uid", "Impersonate-Uid", "Impersonate-Foo", "Impersonate-Extra", "Impersonate-Userx", "Impersonate-Groups", "Impersonate-", "Impersonate-User-Extra-x"}
 )
 
@@ -222,6 +263,8 @@ type Case struct {
 	Request   *bed.RawRequest   `json:"request"`
 	ClientTok []string          `json:"clientTokens,omitempty"`
 	UID       string            `json:"authenticatedUID,omitempty"`
+	NS        string            `json:"caseNamespace,omitempty"` // namespace in the request path that carries the case's script
+	Via       string            `json:"via"`                     // h1 | h1.0 | h2 | h1-upstream-aborts-first | keepalive | pipelined | concurrent
 	script    map[Attr]string
 }
 
@@ -234,8 +277,19 @@ func genIdentity(g *vkit.Rand) *user.DefaultInfo {
 	if g.Chance(0.04) {
 		u.Name = g.Pick(unsendable)
 	}
+	if g.Chance(0.015) {
+		u.Name = "" // an authenticator that vouches for a user without a name
+	}
+	if g.Chance(0.03) {
+		u.Name = g.Pick(saBoundary)
+	}
 	for i, n := 0, g.PickInt([]int{0, 1, 1, 2, 3}); i < n; i++ {
 		u.Groups = append(u.Groups, g.Pick(groupPool))
+	}
+	if g.Chance(0.02) { // many groups, with duplicates
+		for i := 0; i < 40; i++ {
+			u.Groups = append(u.Groups, fmt.Sprintf("team-%d", i%35))
+		}
 	}
 	if g.Chance(0.02) {
 		u.Groups = append(u.Groups, g.Pick(unsendable))
@@ -252,8 +306,8 @@ func genIdentity(g *vkit.Rand) *user.DefaultInfo {
 	return u
 }
 
-func genCase(tb *testbed, idx int, g *vkit.Rand) *Case {
-	c := &Case{Idx: idx, Target: g.Intn(len(tb.targets)), Path: "proxy", Script: map[string]string{}, script: map[Attr]string{}}
+func genCase(tb *testbed, idx int, g *vkit.Rand, together bool) *Case {
+	c := &Case{Idx: idx, Target: g.Intn(len(tb.targets)), Path: "proxy", Via: "h1", Script: map[string]string{}, script: map[Attr]string{}}
 	id := fmt.Sprintf("c02-%d", idx)
 	var hs []bed.RawHeader
 	add := func(canonical, value string) {
@@ -299,8 +353,14 @@ func genCase(tb *testbed, idx int, g *vkit.Rand) *Case {
 		add("Authorization", g.Pick([]string{"Basic ", "Bearer ", ""})+junk)
 		add("Authorization", "Bearer "+tok)
 		c.ClientTok = []string{junk, tok}
-	case k < 90:
+	case k < 89:
 		c.Cred = "none"
+		c.Intended = nil
+	case k < 91:
+		c.Cred = "authenticator-error"
+		et := fmt.Sprintf("errtok-%d-%x", idx, g.Uint64())
+		add("Authorization", "Bearer "+et)
+		c.ClientTok = []string{et}
 		c.Intended = nil
 	case k < 95:
 		c.Cred = "unknown-token"
@@ -316,7 +376,12 @@ func genCase(tb *testbed, idx int, g *vkit.Rand) *Case {
 	}
 
 	// --- impersonation family ---
-	pickUser := func() string { return g.Pick(userPool) }
+	pickUser := func() string {
+		if g.Chance(0.12) {
+			return g.Pick(saBoundary)
+		}
+		return g.Pick(userPool)
+	}
 	addGroups := func(n int) {
 		for i := 0; i < n; i++ {
 			v := g.Pick(groupPool)
@@ -427,14 +492,25 @@ func genCase(tb *testbed, idx int, g *vkit.Rand) *Case {
 	}
 
 	// --- the request ---
-	q := &bed.RawRequest{Method: "GET", Target: g.Pick([]string{"/api/v1/namespaces/default/pods", "/api/v1/nodes/n1", "/apis/apps/v1/deployments?limit=5", "/version", "/api/v1/namespaces/kube-system/configmaps/cm"}), Host: tb.targets[c.Target].host}
+	// the path carries the case's namespace, through which the scripted authorizer finds the case's script
+	c.NS = fmt.Sprintf("c02-%d", idx)
+	targets := []string{"/api/v1/namespaces/" + c.NS + "/pods", "/api/v1/namespaces/" + c.NS + "/configmaps/cm", "/apis/apps/v1/namespaces/" + c.NS + "/deployments?limit=5",
+		"/api/v1/namespaces/" + c.NS + "/pods?watch=true", "/api/v1/namespaces/" + c.NS}
+	if !together {
+		targets = append(targets, "/version", "/api/v1/nodes/n1", "/apis", "/api/v1", "/apis/apps/v1/deployments?limit=5", "/healthz", "/openapi/v2")
+	}
+	q := &bed.RawRequest{Method: "GET", Target: g.Pick(targets), Host: tb.targets[c.Target].host}
+	if !strings.Contains(q.Target, c.NS) {
+		c.NS = ""
+	}
 	pUpgrade := 0.1
 	if c.Intended != nil && !sendable(c.Intended) {
 		pUpgrade = 0.5 // the two paths write the identity onto the wire with different code
 	}
 	if g.Chance(pUpgrade) {
 		c.Path = "upgrade"
-		q.Target = "/api/v1/namespaces/default/pods/p/exec?command=ls"
+		c.NS = fmt.Sprintf("c02-%d", idx)
+		q.Target = "/api/v1/namespaces/" + c.NS + "/pods/p/exec?command=ls"
 		hs = append(hs, bed.RawHeader{Name: wireCase(g, "Connection"), Value: g.Pick([]string{"Upgrade", "upgrade"})}, bed.RawHeader{Name: wireCase(g, "Upgrade"), Value: "SPDY/3.1"})
 	} else {
 		if g.Chance(0.25) {
@@ -445,6 +521,19 @@ func genCase(tb *testbed, idx int, g *vkit.Rand) *Case {
 		if g.Chance(0.05) {
 			// hostile: name identity-bearing headers as hop-by-hop
 			hs = append(hs, bed.RawHeader{Name: "Connection", Value: g.Pick([]string{"Impersonate-User", "Impersonate-Group, Impersonate-User", "Authorization", "Impersonate-User, Authorization, keep-alive"})})
+		}
+		// how the request travels (unusual but legal clients; an upstream connection that dies once)
+		switch k := g.Intn(100); {
+		case k < 78:
+		case k < 85:
+			c.Via = "h1.0"
+			q.Proto = "HTTP/1.0"
+		case k < 93:
+			c.Via = "h2"
+		default:
+			if q.Method == "GET" && tb.targets[c.Target].raw != nil {
+				c.Via = "h1-upstream-aborts-first"
+			}
 		}
 	}
 	// random order; the id header is put anywhere too. Same-named fields keep their relative order (it is significant
@@ -554,16 +643,18 @@ func otherClass(name string) string {
 
 func TestCheck(t *testing.T) {
 	vkit.Run(t, "C02", "exploration", func(r *vkit.R) {
-		r.Rule("each case = (authenticated identity over pools of hostile names/groups/extra keys and values incl. UTF-8, %, blanks, 300-byte and control-byte strings) x " +
-			"(credential presentation: bearer / second channel + client Authorization / duplicated Authorization / none / unknown / wrong scheme) x " +
+		r.Rule("each case = (authenticated identity over pools of hostile names/groups/extra keys and values incl. UTF-8, %, blanks, 300-byte, control-byte and EMPTY names, 40 groups with duplicates, service-account names at the 63/253 validation boundaries) x " +
+			"(credential presentation: bearer / second channel + client Authorization / duplicated Authorization / none / unknown / wrong scheme / failing authenticator) x " +
 			"(impersonation family: none, user, +groups, +extras, service account, anonymous, groups/extras without user, empty user value, two user values, empty-then-name) x " +
 			"(0-2 other Impersonate-* headers: Uid, Foo, Extra without dash, ...) x random header casing/order/optional blanks x (allow/deny/no-opinion/error per requested attribute) x (proxy | upgrade path) x " +
-			"(history: the endpoint transport of one cluster per gateway is rebuilt with EndpointInfo.ResetTransport() before ~1/250 of its cases, as the health checker does for a hung transport). " +
-			"Sent byte-exact over a raw socket through the real handler chain; decided on the header lines a raw stub upstream received. " +
+			"(client: HTTP/1.1 | HTTP/1.0 | HTTP/2 over TLS | two requests of different users on one keep-alive connection | pipelined | 12 at once through one gateway) x (upstream connection dies once, transport retries) x " +
+			"(history of the cluster object: endpoint transport rebuilt with ResetTransport(), gateway credential rotated in place, cluster deleted and re-created under its name; a second cluster sharing the same upstream endpoint with another credential). " +
+			"Sent byte-exact over a raw socket through the real handler chain; decided on the header lines a raw stub upstream received (every copy, when a request arrives more than once). " +
 			"Non-trivial = the request carries any identity-bearing client header beyond one well-formed bearer token, or the identity needs escaping; distinct = hash of the wire request head and script.")
 		r.Assume("the authenticator and authorizer are the harness' scripted ones; what the authenticator returned is recorded at that boundary and is 'the identity the gateway authenticated'")
 		r.Assume("identity strings with leading/trailing blanks are not generated: no HTTP field value can carry them")
 		r.Assume("an allowed impersonation that is forwarded under the authenticated identity is counted (allowed_forwarded_as_self), not judged: the statement permits the authenticated identity unconditionally")
+		r.Assume("after a credential rotation every credential the cluster object was ever configured with counts as 'the gateway's own' (which one is in use is hot-reload convergence, C11); stale use is counted")
 
 		n := r.N(30000, 120000)
 		workers := 8
@@ -599,6 +690,7 @@ func TestCheck(t *testing.T) {
 			}
 		}
 
+		// phase 1: one case at a time per gateway
 		r.Parallel(n, workers, func(i int, g *vkit.Rand) {
 			if only >= 0 && i != only {
 				return
@@ -606,6 +698,32 @@ func TestCheck(t *testing.T) {
 			tb := <-pool
 			defer func() { pool <- tb }()
 			runCase(r, tb, i, g)
+		})
+
+		// phase 2: two requests of two different users over ONE client connection (keep-alive reuse or pipelined)
+		np := r.N(1500, 8000)
+		r.Parallel(np, workers, func(j int, g *vkit.Rand) {
+			base := n + 2*j
+			if only >= 0 && only != base && only != base+1 {
+				return
+			}
+			tb := <-pool
+			defer func() { pool <- tb }()
+			runPair(r, tb, base, g)
+		})
+
+		// phase 3: barrier-started batches of cases through one gateway at the same moment, some with a transport reset or
+		// a re-delivery of the cluster object racing with them
+		const batchSize = 12
+		nb := r.N(500, 4000)
+		r.Parallel(nb, workers, func(b int, g *vkit.Rand) {
+			base := n + 2*np + b*batchSize
+			if only >= 0 && (only < base || only >= base+batchSize) {
+				return
+			}
+			tb := <-pool
+			defer func() { pool <- tb }()
+			runBatch(r, tb, base, batchSize, g)
 		})
 
 		if only < 0 {
@@ -616,64 +734,303 @@ func TestCheck(t *testing.T) {
 			r.Require(r.Counter("not_forwarded_unauthenticated") >= int64(n/40), "too few unauthenticated requests")
 			r.Require(r.Counter("forwarded_upgrade") >= int64(n/60), "too few upgrade-path requests were forwarded")
 			r.Require(r.Counter("authorizer_calls") >= int64(n/4), "the scripted authorizer was hardly consulted")
-			r.Require(r.Counter("transport_resets") >= 8 && r.Counter("forwarded_after_transport_reset") >= int64(n/20), "too few requests were relayed through a rebuilt endpoint transport")
+			r.Require(r.Counter("transport_resets") >= 8 && r.Counter("forwarded_after_transport-reset") >= int64(n/40), "too few requests were relayed through a rebuilt endpoint transport")
+			r.Require(r.Counter("credential_rotations") >= 4 && r.Counter("forwarded_after_credential-rotation") >= int64(n/200), "too few requests after a credential rotation")
+			r.Require(r.Counter("cluster_recreations") >= 4 && r.Counter("forwarded_after_cluster-recreate") >= int64(n/200), "too few requests after a cluster was deleted and re-created")
+			r.Require(r.Counter("forwarded_shared_upstream_cluster") >= int64(n/20), "too few requests through the cluster that shares another cluster's upstream")
+			r.Require(r.Counter("forwarded_via_h1.0") >= int64(n/100) && r.Counter("forwarded_via_h2") >= int64(n/100), "too few HTTP/1.0 or HTTP/2 client requests were forwarded")
+			r.Require(r.Counter("upstream_copies_judged_beyond_first") >= 5, "no request was seen arriving twice upstream (transport retry after a dead connection)")
+			r.Require(r.Counter("forwarded_via_keepalive") >= int64(np/4) && r.Counter("forwarded_via_pipelined") >= int64(np/8), "too few keep-alive / pipelined pairs were forwarded")
+			r.Require(r.Counter("forwarded_via_concurrent") >= int64(nb*batchSize/4) && r.Counter("batches_with_racing_config_event") >= int64(nb/10), "the concurrent phase was too thin")
+			r.Require(r.Counter("not_forwarded_authenticator_error") >= int64(n/200), "the failing-authenticator path was not exercised")
+			r.Require(r.Counter("empty_name_identity_cases") >= int64(n/300) && r.Counter("many_groups_identity_forwarded") >= int64(n/300), "boundary identities were not exercised")
+			r.Require(r.Counter("sa_boundary_impersonations_forwarded") >= int64(n/300), "service-account boundary names were never impersonated successfully (model and filter may disagree on validity)")
 		}
 	})
+}
+
+// endpointOf returns the live endpoint object of a target.
+func endpointOf(r *vkit.R, tb *testbed, tg *target) (ep interface {
+	ResetTransport() error
+	IsReady() bool
+	TriggerHealthCheck()
+}, ok bool) {
+	ci, ok := tb.gw.Cluster(tg.host)
+	if !ok {
+		r.Inconclusive("cluster " + tg.host + " is not known to the gateway any more")
+		return nil, false
+	}
+	e, ok := ci.Endpoints.Load(tg.url)
+	if !ok {
+		r.Inconclusive("endpoint " + tg.url + " is not known to the gateway any more")
+		return nil, false
+	}
+	return e, true
 }
 
 // resetTransport does what controllers.GatewayHealthCheck does after three timed-out probes on a hung transport: it asks
 // the endpoint to rebuild its proxy transport. Every request relayed afterwards goes through the rebuilt one; the identity
 // the upstream is told must not depend on that history. Returns false when the watchdog expired.
 func resetTransport(r *vkit.R, tb *testbed, tg *target) bool {
-	ci, ok := tb.gw.Cluster(tg.host)
+	ep, ok := endpointOf(r, tb, tg)
 	if !ok {
-		r.Inconclusive("cluster " + tg.host + " is not known to the gateway any more")
-		return false
-	}
-	ep, ok := ci.Endpoints.Load(tg.url)
-	if !ok {
-		r.Inconclusive("endpoint " + tg.url + " is not known to the gateway any more")
 		return false
 	}
 	if err := ep.ResetTransport(); err != nil {
 		r.Inconclusive("ResetTransport failed: " + err.Error())
 		return false
 	}
+	tb.histMu.Lock()
 	tg.resets++
+	tg.last = "transport-reset"
+	tb.histMu.Unlock()
 	r.Count("transport_resets", 1)
-	// closing the old transport may cancel a health probe that happened to be in flight and mark the endpoint
-	// unhealthy until the next probe: ask for one instead of waiting for the 5 s ticker
+	return waitReadyAgain(r, tb, tg, "a transport reset")
+}
+
+// waitReadyAgain: closing a transport may cancel a health probe that happened to be in flight and mark the endpoint
+// unhealthy until the next probe: ask for one instead of waiting for the 5 s ticker.
+func waitReadyAgain(r *vkit.R, tb *testbed, tg *target, after string) bool {
+	ep, ok := endpointOf(r, tb, tg)
+	if !ok {
+		return false
+	}
 	if !ep.IsReady() {
-		r.Count("transport_reset_needed_reprobe", 1)
+		r.Count("reprobe_needed_after_config_event", 1)
 		ep.TriggerHealthCheck()
 		if !tb.gw.WaitReady(tg.host, tg.url, true, watchdog) {
-			r.Inconclusive("endpoint did not become ready again after a transport reset within the watchdog")
+			r.Inconclusive("endpoint did not become ready again after " + after + " within the watchdog")
 			return false
 		}
 	}
 	return true
 }
 
-func runCase(r *vkit.R, tb *testbed, i int, g *vkit.Rand) {
-	c := genCase(tb, i, g)
+// applyCluster (re-)delivers the cluster object of a target with its current credential.
+func applyCluster(r *vkit.R, tb *testbed, tg *target, what string) bool {
+	obj := bed.BuildCluster(bed.ClusterSpec{Name: tg.host, Servers: []string{tg.url}, Token: tg.cred})
+	if sr := tb.gw.Apply(obj); sr.Err != nil || sr.Panic != nil || sr.Requeue {
+		r.Inconclusive(fmt.Sprintf("controller did not apply cluster %s (%s): %+v", tg.host, what, sr))
+		return false
+	}
+	if !tb.gw.WaitAllReady(obj, watchdog) {
+		r.Inconclusive("endpoint of " + tg.host + " did not become ready after " + what + " within the watchdog")
+		return false
+	}
+	return true
+}
+
+// rotateCredential changes the gateway's own credential of the cluster in place (an update of the object).
+func rotateCredential(r *vkit.R, tb *testbed, tg *target, g *vkit.Rand) bool {
+	tb.histMu.Lock()
+	tg.cred = fmt.Sprintf("%s-r%d-%x", strings.SplitN(tg.creds[0], "-r", 2)[0], len(tg.creds), g.Uint64()&0xffff)
+	tg.creds = append(tg.creds, tg.cred)
+	tg.last = "credential-rotation"
+	tb.histMu.Unlock()
+	r.Count("credential_rotations", 1)
+	return applyCluster(r, tb, tg, "a credential rotation")
+}
+
+// recreateCluster deletes the cluster object and creates it again under the same name (with a new credential).
+func recreateCluster(r *vkit.R, tb *testbed, tg *target, g *vkit.Rand) bool {
+	if sr := tb.gw.Delete(tg.host); sr.Err != nil || sr.Panic != nil {
+		r.Inconclusive(fmt.Sprintf("controller did not delete cluster %s: %+v", tg.host, sr))
+		return false
+	}
+	tb.histMu.Lock()
+	tg.cred = fmt.Sprintf("%s-n%d-%x", strings.SplitN(tg.creds[0], "-r", 2)[0], len(tg.creds), g.Uint64()&0xffff)
+	// a re-created cluster is a new object: only its own credential is acceptable
+	tg.creds = []string{tg.cred}
+	tg.recreated++
+	tg.last = "cluster-recreate"
+	tb.histMu.Unlock()
+	r.Count("cluster_recreations", 1)
+	return applyCluster(r, tb, tg, "deleting and re-creating the cluster")
+}
+
+// historyTarget: clusters 0 (and the TLS+h2 one) live through config events; cluster 1 and the one that shares cluster 0's
+// upstream never do (so that a defect that needs the history keeps a signature of its own).
+func historyTarget(tg *target, idx int) bool { return idx == 0 || tg.h2 != nil }
+
+// prepCase generates case i, lets the target's cluster live through a config event now and then, and installs the scripts.
+func prepCase(r *vkit.R, tb *testbed, i int, g *vkit.Rand, together bool) (*Case, *script, bool) {
+	c := genCase(tb, i, g, together)
 	tg := tb.targets[c.Target]
 	id := fmt.Sprintf("c02-%d", i)
-	// History: the first cluster of every gateway (and the TLS+h2 one) gets its endpoint's transport reset now and then,
-	// the second cluster never does (so that a defect that needs the reset keeps a signature of its own).
-	if c.Target != 1 && g.Chance(1.0/250) {
-		if !resetTransport(r, tb, tg) {
-			return
+	if !together && historyTarget(tg, c.Target) {
+		ok := true
+		switch k := g.Intn(1500); {
+		case k < 6:
+			ok = resetTransport(r, tb, tg)
+		case k < 9:
+			ok = rotateCredential(r, tb, tg, g)
+		case k < 12:
+			ok = recreateCluster(r, tb, tg, g)
+		}
+		if !ok {
+			return nil, nil, false
 		}
 	}
 	sc := &script{m: c.script}
-	tb.curMu.Lock()
-	tb.cur = sc
-	tb.curMu.Unlock()
-	if tg.raw != nil && c.Path == "upgrade" {
-		tg.raw.Script(id, &bed.RawReply{Status: 403, Headers: []bed.RawHeader{{Name: "Content-Type", Value: "text/plain"}}, Body: []byte("no upgrade here"), Framing: "cl"})
+	if c.NS != "" {
+		tb.scripts.Store(c.NS, sc)
+	} else {
+		tb.curMu.Lock()
+		tb.cur = sc
+		tb.curMu.Unlock()
 	}
+	if tg.raw != nil {
+		switch {
+		case c.Path == "upgrade":
+			// an upgrade request is answered 403 so that the gateway relays the answer and closes
+			tg.raw.Script(id, &bed.RawReply{Status: 403, Headers: []bed.RawHeader{{Name: "Content-Type", Value: "text/plain"}}, Body: []byte("no upgrade here"), Framing: "cl"})
+		case c.Via == "h1-upstream-aborts-first":
+			tg.raw.Script(id, &bed.RawReply{Status: 200, Headers: []bed.RawHeader{{Name: "Content-Type", Value: "text/plain"}}, Body: []byte("second attempt"), Framing: "cl", AbortTimes: 1})
+		}
+	}
+	if c.Intended != nil && c.Intended.Name == "" {
+		r.Count("empty_name_identity_cases", 1)
+	}
+	return c, sc, true
+}
 
-	resp := bed.RawDo(tb.gw.Addr(), c.Request, watchdog)
+func send(tb *testbed, c *Case) bed.RawResponse {
+	if c.Via == "h2" {
+		return tb.front.H2Do(c.Request, watchdog)
+	}
+	return bed.RawDo(tb.gw.Addr(), c.Request, watchdog)
+}
+
+func runCase(r *vkit.R, tb *testbed, i int, g *vkit.Rand) {
+	c, sc, ok := prepCase(r, tb, i, g, false)
+	if !ok {
+		return
+	}
+	resp := send(tb, c)
+	judge(r, tb, c, sc, &resp)
+}
+
+// runPair sends the cases base and base+1 (two different users, possibly different clusters) over one client connection.
+func runPair(r *vkit.R, tb *testbed, base int, g *vkit.Rand) {
+	var cs [2]*Case
+	var scs [2]*script
+	via := "keepalive"
+	if g.Chance(0.4) {
+		via = "pipelined"
+	}
+	for k := 0; k < 2; k++ {
+		c, sc, ok := prepCase(r, tb, base+k, g.Sub(k), true)
+		if !ok {
+			return
+		}
+		if c.Path == "upgrade" {
+			// an upgrade takes the connection over: put plain requests on the shared connection
+			c.Path = "proxy"
+			var hs []bed.RawHeader
+			for _, h := range c.Request.Headers {
+				if l := asciiLower(h.Name); l != "connection" && l != "upgrade" {
+					hs = append(hs, h)
+				}
+			}
+			c.Request.Headers = hs
+			c.Request.Target = "/api/v1/namespaces/" + c.NS + "/pods"
+		}
+		c.Via, c.Request.Proto = via, ""
+		// a "Connection: ..." nomination must not end the connection before the second request
+		cs[k], scs[k] = c, sc
+	}
+	resps := bed.RawDoSeq(tb.gw.Addr(), []*bed.RawRequest{cs[0].Request, cs[1].Request}, via == "pipelined", watchdog)
+	for k := 0; k < 2; k++ {
+		if k == 1 && resps[1].Err != nil && resps[0].Err == nil {
+			// the gateway closed the connection after the first answer (legal: 4xx/5xx answers, Connection: close):
+			// the second request was never read
+			r.Count("pair_second_not_answered_connection_closed", 1)
+			if v, ok := tb.authn.Load(fmt.Sprintf("c02-%d", base+1)); ok && v != nil {
+				// it was read after all: judge what arrived upstream, without an answer
+				r.Count("pair_second_read_but_unanswered", 1)
+			}
+			resps[1].Err = nil
+			resps[1].Status = 599 // no answer; only what reached the upstream is judged
+		}
+		judge(r, tb, cs[k], scs[k], &resps[k])
+	}
+}
+
+// runBatch sends k cases at the same moment through one gateway; in some batches the transport of cluster 0's endpoint is
+// rebuilt, or its cluster object re-delivered unchanged, while the requests are in flight.
+func runBatch(r *vkit.R, tb *testbed, base, k int, g *vkit.Rand) {
+	cs := make([]*Case, k)
+	scs := make([]*script, k)
+	for j := 0; j < k; j++ {
+		c, sc, ok := prepCase(r, tb, base+j, g.Sub(j), true)
+		if !ok {
+			return
+		}
+		if c.Via == "h1" || c.Via == "h1-upstream-aborts-first" {
+			c.Via = "concurrent"
+		} else {
+			c.Via = "concurrent-" + c.Via
+		}
+		cs[j], scs[j] = c, sc
+	}
+	event := g.Intn(4) // 0: reset transport, 1: re-deliver the cluster object, else nothing
+	start := make(chan struct{})
+	resps := make([]bed.RawResponse, k)
+	var wg sync.WaitGroup
+	for j := 0; j < k; j++ {
+		wg.Add(1)
+		go func(j int) {
+			defer wg.Done()
+			<-start
+			c := cs[j]
+			if strings.HasSuffix(c.Via, "h2") {
+				resps[j] = tb.front.H2Do(c.Request, watchdog)
+			} else {
+				resps[j] = bed.RawDo(tb.gw.Addr(), c.Request, watchdog)
+			}
+		}(j)
+	}
+	evOK := true
+	if event < 2 {
+		wg.Add(1)
+		go func() {
+			defer wg.Done()
+			<-start
+			tg := tb.targets[0]
+			if event == 0 {
+				evOK = resetTransport(r, tb, tg)
+			} else {
+				r.Count("cluster_redeliveries_during_traffic", 1)
+				evOK = applyCluster(r, tb, tg, "re-delivering the cluster object during traffic")
+			}
+		}()
+		r.Count("batches_with_racing_config_event", 1)
+	}
+	close(start)
+	wg.Wait()
+	if !evOK {
+		return
+	}
+	if event < 2 && !waitReadyAgain(r, tb, tb.targets[0], "a config event during traffic") {
+		return
+	}
+	for j := 0; j < k; j++ {
+		judge(r, tb, cs[j], scs[j], &resps[j])
+	}
+}
+
+func judge(r *vkit.R, tb *testbed, c *Case, sc *script, resp *bed.RawResponse) {
+	i := c.Idx
+	tg := tb.targets[c.Target]
+	id := fmt.Sprintf("c02-%d", i)
+	if c.NS != "" {
+		tb.scripts.Delete(c.NS)
+	}
+	tb.histMu.RLock()
+	creds := append([]string(nil), tg.creds...)
+	last := tg.last
+	resets := tg.resets
+	tb.histMu.RUnlock()
 
 	r.Eval(1)
 	head := string(c.Request.Bytes())
@@ -683,15 +1040,20 @@ func runCase(r *vkit.R, tb *testbed, i int, g *vkit.Rand) {
 	nontrivial := c.Cred != "bearer" || c.Shape != "none" || len(c.Others) > 0 || (c.Intended != nil && len(c.Intended.Extra) > 0)
 	if nontrivial {
 		// the token and id are unique per case; hash the shape of the request instead
-		r.Distinct(vkit.Hash64(c.Cred, c.Path, fmt.Sprint(c.Asked), fmt.Sprint(c.Others), fmt.Sprint(c.Script), fmt.Sprint(c.Intended), fmt.Sprint(c.Target)))
+		r.Distinct(vkit.Hash64(c.Cred, c.Path, c.Via, fmt.Sprint(c.Asked), fmt.Sprint(c.Others), fmt.Sprint(c.Script), fmt.Sprint(c.Intended), fmt.Sprint(c.Target)))
 	}
 
-	// what arrived upstream
+	// what arrived upstream: every copy at the target's stub; anything at another stub is misdirected
 	var seen [][]bed.RawHeader
 	elsewhere := 0
-	for ti, t := range tb.targets {
+	done := map[interface{}]bool{}
+	for _, t := range tb.targets {
 		var got [][]bed.RawHeader
 		if t.raw != nil {
+			if done[t.raw] {
+				continue
+			}
+			done[t.raw] = true
 			for _, s := range t.raw.Get(id) {
 				got = append(got, s.RawHeaders)
 			}
@@ -702,7 +1064,7 @@ func runCase(r *vkit.R, tb *testbed, i int, g *vkit.Rand) {
 			}
 			r.Count("upstream_proto_"+s.Proto, 1)
 		}
-		if ti == c.Target {
+		if (t.raw != nil && t.raw == tg.raw) || (t.h2 != nil && t.h2 == tg.h2) {
 			seen = got
 		} else {
 			elsewhere += len(got)
@@ -719,12 +1081,13 @@ func runCase(r *vkit.R, tb *testbed, i int, g *vkit.Rand) {
 	r.Count("authorizer_calls", len(calls))
 
 	wit := func(extra map[string]interface{}) map[string]interface{} {
-		w := map[string]interface{}{"case": c, "transport_resets_of_target_endpoint": tg.resets, "wire_request_head": head, "authenticated": authn, "authorizer_calls": calls, "status": resp.Status, "response_body": fmt.Sprintf("%.300q", resp.Body)}
+		w := map[string]interface{}{"case": c, "target_cluster_history": map[string]interface{}{"transport_resets": resets, "credentials_ever_configured": creds, "latest_event": last},
+			"wire_request_head": head, "authenticated": authn, "authorizer_calls": calls, "status": resp.Status, "response_body": fmt.Sprintf("%.300q", resp.Body)}
 		if resp.Err != nil {
 			w["client_error"] = resp.Err.Error()
 		}
 		if len(seen) > 0 {
-			w["upstream_received"] = seen[0]
+			w["upstream_received"] = seen
 		}
 		for k, v := range extra {
 			w[k] = v
@@ -736,7 +1099,7 @@ func runCase(r *vkit.R, tb *testbed, i int, g *vkit.Rand) {
 	}
 	if resp.Err != nil {
 		r.Count("client_errors", 1)
-		r.Inconclusive(fmt.Sprintf("case %d: no parsable answer from the gateway: %v", i, resp.Err))
+		r.Inconclusive(fmt.Sprintf("case %d (%s): no parsable answer from the gateway: %v", i, c.Via, resp.Err))
 	}
 	if elsewhere > 0 {
 		r.Violation("C02/forwarded-to-other-cluster", fmt.Sprintf("request %s for host %s arrived at the stub of another cluster", id, tg.host), wit(nil))
@@ -798,12 +1161,17 @@ func runCase(r *vkit.R, tb *testbed, i int, g *vkit.Rand) {
 		switch {
 		case authn == nil:
 			r.Count("not_forwarded_unauthenticated", 1)
+			if c.Cred == "authenticator-error" {
+				r.Count("not_forwarded_authenticator_error", 1)
+			}
 		case reason == "malformed":
 			r.Count("not_forwarded_malformed", 1)
 		case strings.HasPrefix(reason, "denied"):
 			r.Count("not_forwarded_denied", 1)
 		case !sendable(cands[0].id.asIdentity()):
 			r.Count("not_forwarded_unsendable_identity", 1)
+		case authn.Name == "" && cands[0].what == "self":
+			r.Count("not_forwarded_empty_name_identity", 1)
 		default:
 			r.Count("not_forwarded_other", 1)
 			r.Count(fmt.Sprintf("not_forwarded_other_status_%d", resp.Status), 1)
@@ -815,112 +1183,162 @@ func runCase(r *vkit.R, tb *testbed, i int, g *vkit.Rand) {
 	}
 
 	r.Count("forwarded", 1)
+	r.Count("forwarded_via_"+c.Via, 1)
+	if strings.HasPrefix(c.Via, "concurrent") && c.Via != "concurrent" {
+		r.Count("forwarded_via_concurrent", 1)
+	}
 	if c.Path == "upgrade" {
 		r.Count("forwarded_upgrade", 1)
 	}
 	if tg.h2 != nil {
 		r.Count("forwarded_tls_h2", 1)
 	}
-	tl := readTold(seen[0])
+	if tg.shared {
+		r.Count("forwarded_shared_upstream_cluster", 1)
+	}
 	feat := c.Path
 	if tg.h2 != nil {
 		feat += "-h2"
 	}
-	if tg.resets > 0 {
-		feat += "/after-transport-reset"
-		r.Count("forwarded_after_transport_reset", 1)
+	// the history of the cluster object goes into the signatures about what the transport adds (identity headers present
+	// at all, credential) - that is what a rebuilt transport can lose; what the filter decides does not depend on it
+	hfeat := feat
+	if last != "" {
+		hfeat += "/after-" + last
+		r.Count("forwarded_after_"+last, 1)
+	}
+	if len(seen) > 1 {
+		r.Count("upstream_copies_judged_beyond_first", len(seen)-1)
 	}
 
 	switch {
 	case authn == nil:
-		r.Violation("C02/unauthenticated-forwarded/"+c.Cred, fmt.Sprintf("request without a valid credential (%s) reached the upstream as user %q", c.Cred, tl.Users), wit(nil))
+		r.Violation("C02/unauthenticated-forwarded/"+c.Cred, fmt.Sprintf("request without a valid credential (%s) reached the upstream as user %q", c.Cred, readTold(seen[0]).Users), wit(nil))
 		return
 	case reason == "malformed":
+		tl := readTold(seen[0])
 		r.Violation("C02/malformed-forwarded/"+feat, fmt.Sprintf("groups/extras without a user were asked (users %q groups %q extras %v) and the request reached the upstream as %q groups %q", c.Asked.Users, c.Asked.Groups, c.Asked.Extras, tl.Users, tl.Groups), wit(nil))
 		return
 	case len(cands) == 0:
+		tl := readTold(seen[0])
 		r.Violation("C02/denied-forwarded/"+strings.TrimPrefix(reason, "denied:")+"/"+feat, fmt.Sprintf("impersonation of users %q groups %q extras %v was not allowed by the authorizer (%s) but the request reached the upstream as %q groups %q extra %v", c.Asked.Users, c.Asked.Groups, c.Asked.Extras, reason, tl.Users, tl.Groups, tl.Extra), wit(nil))
 		return
 	}
 
-	// identity
-	if len(tl.Users) != 1 {
-		r.Violation(fmt.Sprintf("C02/identity/user-header-count-%d/%s", min(len(tl.Users), 2), feat), fmt.Sprintf("the upstream received %d Impersonate-User values %q (authenticated %q)", len(tl.Users), tl.Users, authn.Name), wit(nil))
-	} else {
-		got := Normalize(Identity{Name: tl.Users[0], Groups: tl.Groups, Extra: tl.Extra})
-		// the acceptable identity that got comes closest to (equal > extra differs > groups differ > user differs)
-		rank := map[string]int{"": 0, "extra": 1, "groups": 2, "user": 3}
-		best, bestDiff := "", "none"
-		for _, cd := range cands {
-			d := got.Diff(cd.id)
-			if bestDiff == "none" || rank[d] < rank[bestDiff] {
-				best, bestDiff = cd.what, d
-			}
-		}
-		if bestDiff != "" && best == "self" && !sendable(authn) {
-			r.Violation(fmt.Sprintf("C02/identity/control-bytes-altered/%s/%s", bestDiff, feat),
-				fmt.Sprintf("the authenticated identity (user %q groups %q) contains bytes no HTTP field value can carry; instead of refusing, the gateway told the upstream user %q groups %q", authn.Name, authn.Groups, got.Name, got.Groups), wit(nil))
-		} else if bestDiff != "" {
-			r.Violation(fmt.Sprintf("C02/identity/%s-differs/%s/%s", bestDiff, best, feat),
-				fmt.Sprintf("upstream was told user %q groups %q extra %v; expected (%s) user %q groups %q extra %v", got.Name, got.Groups, got.Extra, cands[0].what, cands[0].id.Name, cands[0].id.Groups, cands[0].id.Extra), wit(map[string]interface{}{"expected": cands}))
+	for copyNo, hs := range seen {
+		tl := readTold(hs)
+		cfeat := feat
+		// identity
+		if len(tl.Users) != 1 {
+			r.Violation(fmt.Sprintf("C02/identity/user-header-count-%d/%s", min(len(tl.Users), 2), hfeat), fmt.Sprintf("the upstream received %d Impersonate-User values %q (authenticated %q)", len(tl.Users), tl.Users, authn.Name), wit(nil))
 		} else {
+			got := Normalize(Identity{Name: tl.Users[0], Groups: tl.Groups, Extra: tl.Extra})
+			// the acceptable identity that got comes closest to (equal > extra differs > groups differ > user differs)
+			rank := map[string]int{"": 0, "extra": 1, "groups": 2, "user": 3}
+			best, bestDiff := "", "none"
+			for _, cd := range cands {
+				d := got.Diff(cd.id)
+				if bestDiff == "none" || rank[d] < rank[bestDiff] {
+					best, bestDiff = cd.what, d
+				}
+			}
 			switch {
-			case shape == ShapeNone:
-				r.Count("forwarded_as_self", 1)
-			case best == "impersonated":
-				r.Count("forwarded_impersonated", 1)
-			case shape == ShapeSingle:
-				r.Count("allowed_forwarded_as_self", 1)
+			case bestDiff != "" && best == "self" && !sendable(authn):
+				r.Violation(fmt.Sprintf("C02/identity/control-bytes-altered/%s/%s", bestDiff, cfeat),
+					fmt.Sprintf("the authenticated identity (user %q groups %q) contains bytes no HTTP field value can carry; instead of refusing, the gateway told the upstream user %q groups %q", authn.Name, authn.Groups, got.Name, got.Groups), wit(nil))
+			case bestDiff != "":
+				r.Violation(fmt.Sprintf("C02/identity/%s-differs/%s/%s", bestDiff, best, cfeat),
+					fmt.Sprintf("upstream was told user %q groups %q extra %v; expected (%s) user %q groups %q extra %v", got.Name, got.Groups, got.Extra, cands[0].what, cands[0].id.Name, cands[0].id.Groups, cands[0].id.Extra), wit(map[string]interface{}{"expected": cands}))
+			case got.Name == "":
+				// An empty Impersonate-User value is, for an API server, no impersonation at all: with nothing else asked it
+				// acts as the owner of the credential (the gateway itself), with groups/extras it rejects the request. An
+				// identity without a name cannot be told to the upstream; the only sound answer is to refuse.
+				r.Violation("C02/identity/empty-user-name-forwarded/"+c.Path, fmt.Sprintf("the authenticated identity has an empty name (groups %q); the request was forwarded with the gateway's credential and an empty Impersonate-User value, which an API server reads as 'act as the gateway'", authn.Groups), wit(nil))
 			default:
-				r.Count("ambiguous_forwarded_as_self", 1)
-			}
-			if shape == ShapeAmbiguous {
-				r.Count("ambiguous_forwarded", 1)
+				if copyNo > 0 {
+					break
+				}
+				switch {
+				case shape == ShapeNone:
+					r.Count("forwarded_as_self", 1)
+				case best == "impersonated":
+					r.Count("forwarded_impersonated", 1)
+					for _, u := range c.Asked.Users {
+						if strings.HasPrefix(asciiLower(u), "system:serviceaccount") && len(u) > 60 {
+							r.Count("sa_boundary_impersonations_forwarded", 1)
+							break
+						}
+					}
+				case shape == ShapeSingle:
+					r.Count("allowed_forwarded_as_self", 1)
+				default:
+					r.Count("ambiguous_forwarded_as_self", 1)
+				}
+				if shape == ShapeAmbiguous {
+					r.Count("ambiguous_forwarded", 1)
+				}
+				if len(authn.Groups) >= 40 && best == "self" {
+					r.Count("many_groups_identity_forwarded", 1)
+				}
 			}
 		}
-	}
 
-	// credential: only the gateway's own
-	want := "Bearer " + tg.cred
-	switch {
-	case len(tl.Auth) == 0 && c.Path == "upgrade":
-		// Observed, not judged: on the upgrade path the bearer-token wrapper is not part of PorxyUpgradeTransport, so a
-		// token-configured cluster receives no credential at all. Nothing of the client's is forwarded, which is what
-		// the statement is about.
-		r.Count("upgrade_without_gateway_credential", 1)
-	case len(tl.Auth) == 0:
-		r.Violation("C02/credential/missing/"+feat, "the upstream received no Authorization header (cluster is configured with a bearer token)", wit(nil))
-	case len(tl.Auth) > 1:
-		r.Violation("C02/credential/duplicated/"+feat, fmt.Sprintf("the upstream received %d Authorization values %q", len(tl.Auth), tl.Auth), wit(nil))
-	case tl.Auth[0] != want:
-		r.Violation("C02/credential/not-the-gateways/"+c.Cred+"/"+feat, fmt.Sprintf("the upstream received Authorization %q, the cluster's credential is %q (client sent %q)", tl.Auth[0], want, c.ClientTok), wit(nil))
-	}
-	for _, h := range tl.All {
-		for _, ct := range c.ClientTok {
-			if strings.Contains(h.Value, ct) {
-				r.Violation("C02/credential/client-token-forwarded/"+c.Cred+"/"+feat, fmt.Sprintf("the client's credential %q arrived upstream in header %s: %q", ct, h.Name, h.Value), wit(nil))
+		// credential: only the gateway's own
+		isOwn := false
+		for _, cr := range creds {
+			if len(tl.Auth) == 1 && tl.Auth[0] == "Bearer "+cr {
+				isOwn = true
+				if cr != creds[len(creds)-1] {
+					r.Count("stale_gateway_credential_after_rotation", 1)
+				}
 			}
 		}
-	}
+		switch {
+		case len(tl.Auth) == 0 && c.Path == "upgrade":
+			// Observed, not judged: on the upgrade path the bearer-token wrapper is not part of PorxyUpgradeTransport, so a
+			// token-configured cluster receives no credential at all. Nothing of the client's is forwarded, which is what
+			// the statement is about.
+			r.Count("upgrade_without_gateway_credential", 1)
+		case len(tl.Auth) == 0:
+			r.Violation("C02/credential/missing/"+hfeat, "the upstream received no Authorization header (cluster is configured with a bearer token)", wit(nil))
+		case len(tl.Auth) > 1:
+			r.Violation("C02/credential/duplicated/"+hfeat, fmt.Sprintf("the upstream received %d Authorization values %q", len(tl.Auth), tl.Auth), wit(nil))
+		case !isOwn:
+			kind := c.Cred
+			for _, t := range tb.targets {
+				if t != tg && tl.Auth[0] == "Bearer "+t.cred {
+					kind = "credential-of-another-cluster"
+				}
+			}
+			r.Violation("C02/credential/not-the-gateways/"+kind+"/"+hfeat, fmt.Sprintf("the upstream received Authorization %q, the cluster's credential is %q (client sent %q)", tl.Auth[0], creds, c.ClientTok), wit(nil))
+		}
+		for _, h := range tl.All {
+			for _, ct := range c.ClientTok {
+				if strings.Contains(h.Value, ct) {
+					r.Violation("C02/credential/client-token-forwarded/"+c.Cred+"/"+cfeat, fmt.Sprintf("the client's credential %q arrived upstream in header %s: %q", ct, h.Name, h.Value), wit(nil))
+				}
+			}
+		}
 
-	// nothing else of the Impersonate-* family
-	for _, h := range tl.Others {
-		fromClient := false
-		for _, o := range c.Others {
-			if strings.EqualFold(o.Name, h.Name) && o.Value == h.Value {
-				fromClient = true
+		// nothing else of the Impersonate-* family
+		for _, h := range tl.Others {
+			fromClient := false
+			for _, o := range c.Others {
+				if strings.EqualFold(o.Name, h.Name) && o.Value == h.Value {
+					fromClient = true
+				}
+			}
+			if fromClient {
+				r.Violation(fmt.Sprintf("C02/client-header-forwarded/%s/%s", otherClass(h.Name), c.Path),
+					fmt.Sprintf("client-sent header %s: %s reached the upstream next to the gateway's credential (authenticated as %q, shape %s)", h.Name, h.Value, authn.Name, c.Shape), wit(nil))
+			} else if !(strings.EqualFold(h.Name, "Impersonate-Uid") && h.Value == c.UID) {
+				// (a gateway-generated Impersonate-Uid carrying the authenticated UID would not be client-supplied)
+				r.Violation("C02/unexpected-impersonate-header/"+c.Path, fmt.Sprintf("the upstream received %s: %s, which is neither user, group nor extra", h.Name, h.Value), wit(nil))
 			}
 		}
-		if fromClient {
-			r.Violation(fmt.Sprintf("C02/client-header-forwarded/%s/%s", otherClass(h.Name), c.Path),
-				fmt.Sprintf("client-sent header %s: %s reached the upstream next to the gateway's credential (authenticated as %q, shape %s)", h.Name, h.Value, authn.Name, c.Shape), wit(nil))
-		} else if !(strings.EqualFold(h.Name, "Impersonate-Uid") && h.Value == c.UID) {
-			// (a gateway-generated Impersonate-Uid carrying the authenticated UID would not be client-supplied)
-			r.Violation("C02/unexpected-impersonate-header/"+c.Path, fmt.Sprintf("the upstream received %s: %s, which is neither user, group nor extra", h.Name, h.Value), wit(nil))
+		if copyNo == 0 && len(c.Others) > 0 && len(tl.Others) == 0 {
+			r.Count("other_family_headers_stripped", 1)
 		}
-	}
-	if len(c.Others) > 0 && len(tl.Others) == 0 {
-		r.Count("other_family_headers_stripped", 1)
 	}
 }
 
